@@ -112,14 +112,15 @@ historical inline truncation used at every dispatch site.
 def _truncate_error_message(exc: BaseException | None, limit: int = _ACCESS_LOG_ERROR_MESSAGE_LIMIT) -> str:
     """Render an exception's message for the access-log ``error_message`` field.
 
-    Returns ``""`` for ``None`` (the no-error case).  Otherwise returns
-    ``str(exc)`` truncated to ``limit`` characters.  Centralises the
-    historically duplicated ``str(exc)[:500]`` pattern across the unary
-    and stream dispatch shells so the truncation policy is one knob.
+    Returns ``""`` for ``None`` (the no-error case).  Otherwise returns the
+    full ``str(exc)``: docs/access-log-spec.md section 5b says ``error_message``
+    MUST NOT be truncated (an over-size record sheds other fields instead, see
+    ``VgiAccessLogFormatter``).  ``limit`` is retained for callers that pass it
+    and is no longer applied.
     """
     if exc is None:
         return ""
-    return str(exc)[:limit]
+    return str(exc)
 
 
 def _log_method_error(protocol_name: str, method_name: str, server_id: str, exc: BaseException) -> str:
@@ -263,6 +264,10 @@ def _emit_access_log(
         }
         if cancelled:
             extra["cancelled"] = True
+        if status == "error" and not error_message:
+            # An exception with empty text (``raise ValueError()``) still has to
+            # yield a schema-valid record: status=error requires a non-empty message.
+            error_message = error_type or "error"
         if error_message:
             extra["error_message"] = error_message
         if server_version:
